@@ -189,7 +189,7 @@ PROPS["C20"] = {
 
 PROPS["C13"] = {
     "verus_units": ["parser_tokens", "preparse"],
-    "replay": "parser",
+    "replay": ["parser", "cst"],
     "frames": [
         {"name": "Parser cursor and leaves are written only by new/bump",
          "file": "crates/lib/mimium-lang/src/compiler/parser/cst_parser.rs",
@@ -198,23 +198,23 @@ PROPS["C13"] = {
          "allowed": ["new", "bump"], "must_exist": ["bump", "parse", "parse_statement", "expect"],
          "searcher": "cst"},
     ],
-    "floor": {"obligations": 36},
+    "floor": {"obligations": 65},
     "trusted_base": [
         "ASSUMED contract of the chumsky lexer built in tokenize (vx_chumsky_lex): it always yields a token vector and the spans it hands out tile the input (third-party combinators: outside any verifier's reach); model of chumsky MapExtra::span / SimpleSpan",
         "ASSUMED contract of split_projection_float_tokens (FnMut closure capturing &mut Vec, str::split_once, chars(): outside Verus): re-splitting a float after a dot keeps the tiling",
         "derive(PartialEq) on the field-less enum TokenKind is structural equality",
         "N10 helpers vx_map_append / vx_map_extend: HashMap::entry(k).or_default().append(&mut v) / .extend(v) append to the list under k (created empty if absent), leave other entries untouched",
-        "model of green.rs GreenTreeBuilder (add_token appends a leaf; start_node / finish_node keep the leaves; into_arena hands them over); byte length of a &str fits in usize",
-        "ASSUMED contract of Parser::parse_statement (and through it the ~60 mutually recursive parse_* methods, which take FnOnce(&mut Self) closures through emit_node: outside Verus): keeps the leaf invariant (consumes tokens only through bump/expect) and never moves `current` backwards",
+        "green.rs is under contract (no builder model any more). Its trusted parts: model of slotmap::SlotMap<GreenNodeId, V> (finite map + ghost insertion stamp; insert returns a fresh key, never touches stored values; Index panics on a dead key); T-helpers with assumed std meaning vx_last_mut (Vec::last_mut), vx_drain_from (Vec::drain(pos..).collect()), vx_width_sum (the width bookkeeping of alloc_internal is dropped: widths play no part in the leaf sequence); byte length of a &str fits in usize",
+        "ASSUMED contract of Parser::parse_statement (and through it the ~60 mutually recursive parse_* methods, which take FnOnce(&mut Self) closures through emit_node: outside Verus): keeps the leaf invariant (consumes tokens only through bump/expect: backed by the frame condition `Parser cursor and leaves are written only by new/bump`, a token scan of cst_parser.rs), never moves `current` backwards, and closes every syntax node it opens (emit_node / start_node_at .. finish_node pairs; start_node_at markers are within the open node)",
         "vstd specifications of Vec, HashMap<usize,_>, Option, str::len",
     ],
     "assumptions": ["the replace_range rule on tokenize: the statements that build and run the chumsky lexer are replaced by one call of the assumed lexer contract"],
     "not_covered": [
         "the chumsky lexer itself and split_projection_float_tokens (assumed contracts above); character-boundary clause of the tiling (follows from the lexer assumption only)",
-        "the 60 mutually recursive parse_* methods (closures taking &mut Self through emit_node are outside Verus): their monotonicity / leaf invariant is the assumed contract of parse_statement; green.rs / red.rs tree structure; expects / expect_all (three-arm guarded match, fold with a closure capturing &mut self)",
+        "the 60 mutually recursive parse_* methods (closures taking &mut Self through emit_node are outside Verus): their monotonicity / leaf invariant / balanced node nesting is the assumed contract of parse_statement; red.rs (positions over the green tree); expects / expect_all (three-arm guarded match, fold with a closure capturing &mut self)",
         "file-leading trivia up to the last line break before the first syntax token are attached to no token: known finding F2 (the proved postcondition excludes exactly this block)",
     ],
-    "explanation": "C13 first-party part: the two closures of tokenize turn a lexer span into a token covering exactly that span; given the assumed lexer/splitter contracts tokenize returns a lossless stream (tiling + zero-length Eof at the end); preparse: token_indices are exactly the syntax tokens in order, and there is a one-to-one correspondence (owner) between attached trivia indices and list positions of the two trivia maps -- nothing but trivia is attached, nothing twice, and every trivia token is attached when a syntax token exists, except the F2 block; Parser::bump appends exactly token_indices[current] to the tree leaves and advances by one; peek / check / is_at_end / expect are specified against the syntax-token sequence; Parser::parse (main loop with the no-progress recovery bump) terminates and, given the assumed contract of parse_statement, returns a tree whose leaves are exactly the syntax tokens in source order.",
+    "explanation": "C13 first-party part: the two closures of tokenize turn a lexer span into a token covering exactly that span; given the assumed lexer/splitter contracts tokenize returns a lossless stream (tiling + zero-length Eof at the end); preparse: token_indices are exactly the syntax tokens in order, and there is a one-to-one correspondence (owner) between attached trivia indices and list positions of the two trivia maps -- nothing but trivia is attached, nothing twice, and every trivia token is attached when a syntax token exists, except the F2 block; green.rs tree builder (real code): the leaf sequence (token indices depth-first, left to right, over the slot-map arena) is an abstract view of GreenTreeBuilder; add_token appends one leaf (or loses the token when no node is open: explicit in the contract), start_node / start_node_at / finish_node keep the sequence, the node returned by the last finish_node carries exactly that sequence; Parser::bump appends exactly token_indices[current] to the tree leaves and advances by one; peek / check / is_at_end / expect are specified against the syntax-token sequence; Parser::parse (main loop with the no-progress recovery bump) terminates and, given the assumed contract of parse_statement, returns a root node whose leaves in the returned arena are exactly the syntax tokens, once each, in source order (node_leaves(arena, root) == token_indices).",
     "samples": [
         {"obligation": "preparse::ensures", "clause": "exists owner: owner_ok(tokens, leading, trailing, owner, n_syntax) && coverage minus dropped_upto"},
         {"obligation": "error_token_of_span::ensures", "clause": "r.start == span.start && r.start + r.length == span.end"},
